@@ -77,3 +77,179 @@ add(Contract(
     raises={'Exception*': ["mv_p_raises(self, pkt, fragments, k)"]},
     # only the cursor moves: no byte is stored, so skipped positions stay holes ('.' by C11)
     modifies=['fragments.current_offset'], returns='ref:Fragments'))
+
+# ---------------------------------------------------------------- Sequence / Optional (C08, C10 per-element alignment)
+from . import c_fragments, c_packet  # noqa: E402,F401
+
+FRAG_MOD = ['fragments.fragments{*}', 'fragments.begin_of_fragments[*]', 'fragments.current_offset',
+            'fragments.ghost_idx{*}']
+
+# the element field lives in its own scratch slot, distinct from the field's own slot
+define('SeqWF(self)',
+       "self.prototype_field.field_name == self.seq_elem_field_name"
+       " and self.seq_elem_field_name != self.field_name"
+       " and not owns(self.prototype_field, self.field_name)"
+       " and isint(self.aligned_to) and not isbool(self.aligned_to) and intval(self.aligned_to) >= 1"
+       " and (isnone(self.get_how_many_elements) != isnone(self.until_condition))"
+       " and (isnone(self.get_how_many_elements) or iscallable(self.get_how_many_elements))"
+       " and (isnone(self.until_condition) or iscallable(self.until_condition))"
+       " and (isnone(self.when) or iscallable(self.when))")
+define('SEQ(pkt, self)', "aslist(slot(pkt, self.field_name))")
+# least advance (< A) that makes pos a multiple of A
+define('aligned_from(pos, start, A)', "0 <= pos - start and pos - start < A and pymod(pos, A) == 0")
+# the `when` guard of a repeated field skips everything: false condition, or a count <= 0
+define('seq_skipped(self)',
+       "not isnone(self.when) and ((g_count_called and intval(g_count) <= 0) or not (g_when_called and bool(g_when)))")
+
+_seq_ghosts = dict(
+    call_ghost={'get_how_many_elements': 'g_count', 'when': ('g_when', 'truth'), 'until_condition': ('g_until', 'truth')},
+    ghost_init={'g_count': '1', 'g_count_called': 'False', 'g_when': 'False', 'g_when_called': 'False',
+                'g_until': 'False', 'g_until_called': 'False', 'g_o': '0'},
+    ghost_kinds={'g_count': 'dyn', 'g_count_called': 'bool', 'g_when': 'bool', 'g_when_called': 'bool',
+                 'g_until': 'bool', 'g_until_called': 'bool', 'g_o': 'int'})
+
+add(Contract(
+    'structural_fields:Sequence.unpack',
+    params={'self': 'ref:Sequence', 'pkt': 'ref:Packet', 'raw': 'bytes', 'offset': 'int', 'k': 'kw'},
+    requires=["SeqWF(self)", "offset >= 0", "k.has_ipp"],
+    ensures=[
+        # a repeated field yields a (fresh) list
+        "hasslot(pkt, self.field_name) and islist(slot(pkt, self.field_name)) and fresh_since(SEQ(pkt, self))",
+        "result >= 0",
+        # with a count: exactly max(count, 0) elements (g_count: what the count callback returned)
+        "implies(not isnone(self.get_how_many_elements) and not seq_skipped(self),"
+        "        g_count_called and isint(g_count) and len(SEQ(pkt, self)) == max(intval(g_count), 0))",
+        # with an until-condition: one or more elements, and the condition (last evaluated on the
+        # list built so far) is true when the loop stops
+        "implies(isnone(self.get_how_many_elements) and not seq_skipped(self),"
+        "        len(SEQ(pkt, self)) >= 1 and g_until_called and bool(g_until))",
+        # a false when-condition (or a count <= 0 under a when): empty list, nothing consumed
+        "implies(seq_skipped(self), len(SEQ(pkt, self)) == 0 and result == offset)",
+    ],
+    raises={'PacketError': ["exc.was_error_found_in_unpacking_phase == True", "StackWF(exc)",
+                            "fresh_since(exc) and fresh_since(exc.fields_stack)"],
+            'OtherException*': []},
+    loops={
+        0: LoopSpec(["0 <= it", "offset >= 0", "len(sequence) == it",
+                     "hasslot(pkt, self.field_name) and same(slot(pkt, self.field_name), sequence)"],
+                    ghost={'g_o': 'offset'}),
+        1: LoopSpec(["offset >= 0", "len(sequence) >= 1",
+                     "hasslot(pkt, self.field_name) and same(slot(pkt, self.field_name), sequence)",
+                     # stop right after the first element for which the condition is true
+                     "g_until_called and should_continue == (not bool(g_until))"],
+                    ghost={'g_o': 'offset'}),
+    },
+    # every element is parsed at the least aligned position at or after the end of the previous one
+    call_asserts={'FIELD.unpack': ["aligned_from(arg_offset, g_o, intval(self.aligned_to))"]},
+    modifies=['slot(pkt, *)'], allocates=True, returns='int', **_seq_ghosts))
+
+add(Contract(
+    'structural_fields:Sequence.pack',
+    params={'self': 'ref:Sequence', 'pkt': 'ref:Packet', 'fragments': 'ref:Fragments', 'k': 'kw'},
+    requires=["SeqWF(self)", "WF(fragments)", "fragments.current_offset >= 0", "k.has_ipp",
+              "hasslot(pkt, self.field_name) and islist(slot(pkt, self.field_name))",
+              "allocated(SEQ(pkt, self))",
+              # the buffer's internal list is owned by the buffer (never a packet value)
+              "not same(SEQ(pkt, self), fragments.begin_of_fragments)"],
+    ensures=["result == fragments", "WF(fragments)", "fragments.current_offset >= 0",
+             # the list itself is left unchanged
+             "same(slot(pkt, self.field_name), old(slot(pkt, self.field_name)))",
+             "len(SEQ(pkt, self)) == old(len(SEQ(pkt, self)))",
+             "forall(0, len(SEQ(pkt, self)), lambda j: same(SEQ(pkt, self)[j], old(SEQ(pkt, self)[j])))"],
+    raises={'PacketError': ["WF(fragments)", "fragments.current_offset >= 0"],
+            'OtherException*': ["WF(fragments)", "fragments.current_offset >= 0"]},
+    loops={0: LoopSpec(["0 <= it", "WF(fragments)", "fragments.current_offset >= 0",
+                        "same(slot(pkt, self.field_name), old(slot(pkt, self.field_name)))"],
+                       ghost={'g_c': 'fragments.current_offset'}, kinds={'val': 'dyn'})},
+    ghost_init={'g_c': '0'}, ghost_kinds={'g_c': 'int'},
+    # every element is emitted at the least aligned position at or after the previous one,
+    # with the element value in the scratch slot
+    call_asserts={'FIELD.pack': ["aligned_from(arg_fragments.current_offset, g_c, intval(self.aligned_to))",
+                                 "same(slot(pkt, self.seq_elem_field_name), SEQ(pkt, self)[it])"]},
+    modifies=['slot(pkt, in:n != self.field_name)'] + FRAG_MOD, allocates=True, returns='ref:Fragments'))
+
+define('OptWF(self)',
+       "self.prototype_field.field_name == self.opt_elem_field_name"
+       " and self.opt_elem_field_name != self.field_name and iscallable(self.when)"
+       " and not owns(self.prototype_field, self.field_name)")
+
+add(Contract(
+    'structural_fields:Optional.unpack',
+    params={'self': 'ref:Optional', 'pkt': 'ref:Packet', 'raw': 'bytes', 'offset': 'int', 'k': 'kw'},
+    requires=["OptWF(self)", "offset >= 0", "k.has_ipp"],
+    ensures=[
+        "hasslot(pkt, self.field_name)", "g_when_called",
+        # parsed iff its condition is true; otherwise None, consuming nothing
+        "implies(not bool(g_when), isnone(slot(pkt, self.field_name)) and result == offset)",
+        "implies(bool(g_when), g_elem_parsed)",
+        "result >= 0",
+    ],
+    raises={'PacketError': [], 'OtherException*': []},
+    call_ghost={'when': ('g_when', 'truth')},
+    ghost_init={'g_when': 'False', 'g_when_called': 'False', 'g_elem_parsed': 'False'},
+    ghost_kinds={'g_when': 'bool', 'g_when_called': 'bool', 'g_elem_parsed': 'bool'},
+    call_asserts={'FIELD.unpack': ["bool(g_when) and arg_offset == offset"]},
+    call_effects={'FIELD.unpack': {'g_elem_parsed': 'True'}},
+    modifies=['slot(pkt, *)'], allocates=True, returns='int'))
+
+add(Contract(
+    'structural_fields:Optional.pack',
+    params={'self': 'ref:Optional', 'pkt': 'ref:Packet', 'fragments': 'ref:Fragments', 'k': 'kw'},
+    requires=["OptWF(self)", "WF(fragments)", "fragments.current_offset >= 0", "k.has_ipp",
+              "hasslot(pkt, self.field_name)"],
+    ensures=[
+        "WF(fragments)", "fragments.current_offset >= 0",
+        # an absent optional emits nothing
+        "implies(isnone(old(slot(pkt, self.field_name))), unchanged(fragments) and result == fragments)",
+        # a present one - whatever its value, 0 and b'' included - is emitted by the element field
+        "implies(not isnone(old(slot(pkt, self.field_name))), g_elem_packed)",
+        "same(slot(pkt, self.field_name), old(slot(pkt, self.field_name)))",
+    ],
+    raises={'PacketError': ["WF(fragments)", "fragments.current_offset >= 0"],
+            'OtherException*': ["WF(fragments)", "fragments.current_offset >= 0"]},
+    ghost_init={'g_elem_packed': 'False'}, ghost_kinds={'g_elem_packed': 'bool'},
+    call_asserts={'FIELD.pack': ["not isnone(slot(pkt, self.field_name))",
+                                 "same(slot(pkt, self.opt_elem_field_name), slot(pkt, self.field_name))"]},
+    call_effects={'FIELD.pack': {'g_elem_packed': 'True'}},
+    modifies=['slot(pkt, in:n != self.field_name)'] + FRAG_MOD, allocates=True, returns='dyn'))
+
+# ---------------------------------------------------------------- normalisers (C08: every way to give a count/condition)
+add(Contract(
+    'role:compile_expr_into_callable', role=True,
+    params={'root_expr': 'dyn'},
+    ensures=["iscallable(result)"],      # its meaning is the subject of C09
+    modifies=[], allocates=True, returns='dyn'))
+add(Contract(
+    'role:convert_a_field_raw_condition_into_a_boolean_unary_expression', role=True,
+    params={'a_field': 'ref:Field'},
+    ensures=["isinst(result, 'UnaryExpr')"],
+    raises={'Exception': []},
+    modifies=[], allocates=True, returns='dyn'))
+
+add(Contract(
+    'structural_fields:normalize_raw_condition_into_a_callable',
+    params={'raw_condition': 'dyn'},
+    ensures=["iscallable(result)",
+             # a callable is taken as it is
+             "implies(iscallable(raw_condition), same(result, raw_condition))"],
+    raises={'ValueError': ["not iscallable(raw_condition)"], 'Exception': ["isinst(raw_condition, 'Field')"]},
+    modifies=[], allocates=True, returns='dyn'))
+
+add(Contract(
+    'structural_fields:normalize_count_condition_into_a_callable',
+    params={'count_raw_condition': 'dyn', 'ghost_pkt': 'ref:Packet', 'ghost_k': 'kw'},
+    ensures=[
+        # a callable is taken as it is
+        "implies(iscallable(count_raw_condition), same(result, count_raw_condition))",
+        # a constant count: the callable returns that constant
+        "implies(not iscallable(count_raw_condition) and isint(count_raw_condition),"
+        "        cb(result, pkt=ghost_pkt, k=ghost_k) == count_raw_condition)",
+        # a field: the callable returns the field's current value in the packet
+        "implies(not iscallable(count_raw_condition) and not isint(count_raw_condition)"
+        "        and isinst(count_raw_condition, 'Field'),"
+        "        same(cb(result, pkt=ghost_pkt, k=ghost_k),"
+        "             slot(ghost_pkt, asref(count_raw_condition, 'Field').field_name)))",
+    ],
+    raises={'ValueError': ["not iscallable(count_raw_condition) and not isint(count_raw_condition)"
+                           " and not isinst(count_raw_condition, 'Field')"]},
+    modifies=[], allocates=True, returns='any'))
